@@ -263,3 +263,5 @@ def check(ctx):
     # ---------------- (f) the constant-tensor helper behind the scalar-time branches
     from .. import helper_specs
     helper_specs.check(ctx, "C02.f", ["fullc"])
+    # ---------------- (g) the interpolation / extrapolation kernels select / insert are parameterised with (shared with C20.a)
+    ctx.import_clauses("C20", {"C20.a"}, "C02.g", minimum=6)
